@@ -10,7 +10,7 @@ import re
 from typing import Any
 
 from harness import fakes, vloop
-from harness.ext_c12 import CLS_BY_NAME, CLS_CODE, hex_id
+from harness.ext_c12 import CLS_BY_NAME, hex_id
 
 HGI = fakes.GWY_ID
 SLUG_CODE = {"RAD": "08", "UFH": "09", "VAL": "0A", "MIX": "0B", "ELE": "11"}
